@@ -781,3 +781,20 @@ Proof.
   - rewrite fitting_result_relayed in H by (try assumption; lia). congruence.
   - destruct (oversized_result_falls_back opq ig cap f 0) as [H1 _]; [lia|]. congruence.
 Qed.
+
+(* ---------- the local fallback is the original command; socket ownership ---------- *)
+
+Lemma fallback_is_the_original_command cenv sent :
+  lr_env (fallback_run cenv sent) = cenv /\ lr_stdio_inherited (fallback_run cenv sent) = true.
+Proof. split; reflexivity. Qed.
+
+Lemma sock_owner_gen evs : forall acc, fold_left sock_step evs acc = last_bind evs acc.
+Proof.
+  induction evs as [|[s|s] evs IH]; intros acc; simpl; [reflexivity| |]; apply IH.
+Qed.
+
+Lemma socket_belongs_to_last_binder evs : sock_owner evs = last_bind evs None.
+Proof. apply sock_owner_gen. Qed.
+
+Lemma exit_keeps_the_socket evs s : sock_owner (evs ++ [SExit s]) = sock_owner evs.
+Proof. unfold sock_owner. rewrite fold_left_app. reflexivity. Qed.
